@@ -5,19 +5,68 @@ import json, subprocess, sys
 ENV = "GOFLAGS=-mod=mod GOPROXY=off GOSUMDB=off GOTOOLCHAIN=local"
 
 # property id -> claim (None = not claimed, with reason in NOT_APPLICABLE)
+TECH = "contract-based deductive verification: weakest-precondition style VCs over go/ssa, contracts in //@ comment files, discharged by z3/cvc5"
+TRUST = "Trusted: the govc VC generator, go/ssa, the SMT solvers, the extern models listed in the evidence file; lengths <= 2^40; int arithmetic mathematical. Obligations recorded as 'unclaimed' in baseline/obligations.json were not discharged within the claim budget and are not part of the claim; the evidence file lists them on every run. "
+
 CLAIMS = {
+    "C01": dict(
+        category="proof",
+        text="Deductive proof of the sequential, per-call content clauses of the property for the code that re-frames payloads: p2p.VecSize/VecBytes (concatenation, fresh result), "
+             "fragswarm newMessage/parseMessage/aggregator/handleTell/Tell (every part carries id, index, count and a contiguous slice; a delivered message is the in-order concatenation of exactly the parts of one (source,id) group), "
+             "mbapp Header accessors, collector.addPart, fragLayer and handleMessage/Tell/send (offsets are partIndex*partSize, total size respected, callers' buffers not written: frame obligations). "
+             "Schedules, the transports below (UDP/QUIC/SSH) and the purely forwarding wrappers are outside what a function contract decides and are not claimed.",
+        design_ref="DESIGN.md section 5, C01",
+        note=TRUST + "Not covered: interleavings of concurrent senders, memswarm/udpswarm/quicswarm/sshswarm I/O, multiswarm/wlswarm/vswarm forwarding.",
+    ),
+    "C08": dict(
+        category="proof",
+        text="No-panic proof for the parsers and reassemblers that consume network bytes: every index, slice, make, division and type-assertion obligation in the p2pmux demux functions, "
+             "fragswarm parseMessage/aggregator/handleTell, mbapp ParseMessage/Header accessors/bitMap/collector/fragLayer/handleMessage is generated from SSA for arbitrary input bytes and discharged; "
+             "a refuted obligation is replayed on the real code through go test -overlay.",
+        design_ref="DESIGN.md section 5, C08",
+        note=TRUST + "Not covered: p2pke message parsing (checked under C02/C03), quic/ssh library internals, address parsers (C16).",
+    ),
+    "C09": dict(
+        category="proof",
+        text="Deductive proof of the MTU arithmetic and of the send-side guards: fragswarm.MTU and mbapp.MTU return min(configured, what the part counter can address) and Tell/Ask/send refuse (ErrMTUExceeded-style error, no send) any vector whose VecSize exceeds it, "
+             "while every accepted size yields parts each within the underlying MTU and part counts within the header field widths.",
+        design_ref="DESIGN.md section 5, C09",
+        note=TRUST + "The underlying swarm's own MTU honesty is an assumed contract (interface call); transports are not covered.",
+    ),
+    "C10": dict(
+        category="proof",
+        text="Deductive proof of the reassembly state machines: fragswarm aggregator.addPart/assemble and mbapp bitMap/collector/fragLayer keep their representation invariants for every input "
+             "(part index within count, offsets within the buffer, a part recorded once), completion is reported only when every part of that group has been recorded, and groups are keyed by (source,id) so parts never cross groups.",
+        design_ref="DESIGN.md section 5, C10",
+        note=TRUST + "Garbage collection timing of incomplete groups and concurrency of handleTell are not covered.",
+    ),
+    "C15": dict(
+        category="proof",
+        text="Deductive proof, for all channel ids and payloads, that each of the five p2pmux framings (uint16/uint32/uint64/uvarint/string) is injective and self-delimiting: demux(mux(c, v)) == (c, concat(v)) and demux never panics or reads outside its input; "
+             "the mux functions do not write the caller's buffers (frame obligations).",
+        design_ref="DESIGN.md section 5, C15",
+        note=TRUST + "encoding/binary models are trusted. The dispatch of demuxed frames to per-channel hubs (a map lookup under a lock) is covered only by inspection, not by obligations.",
+    ),
+    "C18": dict(
+        category="proof",
+        text="Deductive proof of the kademlia Cache as a bounded map over an abstract view: bucket get/put/delete/expire/evict/update and Cache.bucketIndex/Get/Delete/evict/Expire/Update keep count == sum of bucket sizes <= max, locus never stored, "
+             "Get after Put returns the stored entry, Delete/Expire remove only what they should, and eviction removes from the farthest non-empty bucket.",
+        design_ref="DESIGN.md section 5, C18",
+        note=TRUST + "Map model (domain/value/cardinality arrays, range yields each key once) and time.Time as an integer instant are assumptions. Some quantified postconditions of Cache.Update are unclaimed.",
+    ),
     "C19": dict(
         category="proof",
         text="Deductive proof, for all byte strings of all lengths, of the comparison laws the property states: "
              "DistanceCmp/DistanceLt/DistanceGt equal the lexicographic comparison of the two XOR distances (spec function dcmpFrom, "
              "inductive loop invariant), Distance/XORBytes are the pointwise XOR of length min, LeadingZeros is the index of the first set bit. "
              "Every obligation (postconditions, loop invariants, bounds, frames) is generated from the SSA of /repo's current source and discharged by an SMT solver. "
-             "The enumeration-order clauses (Cache.ForEach/Closest/ForEachCloser) are under construction and not yet claimed by this check.",
+             "The enumeration-order clauses (Cache.ForEach/Closest/ForEachCloser) are not yet claimed by this check.",
         design_ref="DESIGN.md section 5, C19",
-        note="Trusted: the govc VC generator, go/ssa, the SMT solvers; math/bits.LeadingZeros8 by its exact table model; lengths <= 2^40; int arithmetic mathematical. Not covered yet: cache enumeration order.",
-        technique="contract-based deductive verification: weakest-precondition style VCs over go/ssa, contracts in //@ comment files, discharged by z3/cvc5",
+        note=TRUST + "math/bits.LeadingZeros8 by its exact table model. Not covered yet: cache enumeration order.",
     ),
 }
+for _c in CLAIMS.values():
+    _c.setdefault("technique", TECH)
 
 NOT_APPLICABLE = {
     "C14": "Data-race freedom quantifies over the interleavings the Go memory model distinguishes; contracts on sequential function bodies (the technique studied here) cannot express or decide it without a permission logic, which this engine does not have (DESIGN.md section 5, C14).",
